@@ -54,6 +54,8 @@ FIXED = [
   "`(tap-dance 200 ())` / `(tap-dance-eager 200 ())` were accepted; the first press indexed the empty action list and panicked"),
  ("F37", "C03", "fix: defseq with modifier prefixes on an empty list is a configuration error",
   "`(defseq v (S-A-()))` panicked in parse_sequence_keys (`expect(\"had to be pressed to be released\")`); found by the thorough tier (20 M inputs, seed 7)"),
+ ("F38", "C08", "fix: starting a second cancel-on-press macro no longer shortens the first one",
+  "the cancel-on-press window was overwritten by the most recently started cancel-on-press macro: starting a short one while a long one ran closed the window early, so a later key press no longer cancelled the long macro (`d:b d:d t:10 d:c`)"),
 ]
 log = subprocess.check_output(["git", "-C", "/repo", "log", "--format=%h %s"]).decode().splitlines()
 out = []
